@@ -19,3 +19,25 @@ func init() {
 		return e1 != nil || e2 != nil || a.A != 1 || b.A != 2, fmt.Sprintf("first-win call: A=%d err=%v; following plain Decode: A=%d err=%v (want 1 and 2)", a.A, e1, b.A, e2)
 	}
 }
+
+func init() {
+	known.Witnesses["FX-PATH-negative-index"] = func() (bool, string) {
+		p, err := gojson.CreatePath("$[-1]")
+		if err != nil {
+			return false, "CreatePath rejects the path: " + err.Error()
+		}
+		var dst interface{}
+		var gerr error
+		panicked := false
+		func() {
+			defer func() {
+				if r := recover(); r != nil {
+					panicked = true
+					gerr = fmt.Errorf("panic: %v", r)
+				}
+			}()
+			gerr = p.Get([]interface{}{1, 2, 3}, &dst)
+		}()
+		return panicked || gerr == nil, fmt.Sprintf("Get($[-1], [1,2,3]) -> %v, err=%v", dst, gerr)
+	}
+}
